@@ -111,6 +111,18 @@ func (fs *FileStorage) send(m storage.Message) (storage.Message, error) {
 
 func (fs *FileStorage) Send(msgs ...storage.Message) error {
 	var err error
+	// refuse the whole call before anything is appended if one of its messages cannot go on the
+	// board: the caller takes a failed Send for "nothing was posted" and sends everything again
+	for _, m := range msgs {
+		// (id and offset are assigned on append: an id is 36 bytes, an offset at most 20 digits)
+		data, err := json.Marshal(m)
+		if err != nil {
+			return fmt.Errorf("failed to marshal a message %v: %w", m, err)
+		}
+		if len(data)+1+36+20 > maxLineSize {
+			return fmt.Errorf("message is too long for the board: about %d bytes, at most %d", len(data)+1+36+20, maxLineSize)
+		}
+	}
 	for i, m := range msgs {
 		msgs[i], err = fs.send(m)
 		if err != nil {
